@@ -1021,8 +1021,8 @@ def s18(repo, res):
 
 
 def nonempty_gates(repo, res, rule):
-    """pose paths have at least one entry: the two gates through which position / displacement arrays and rotations enter
-    (`check_array_shape`, reached from every `check_format_input_vector`, and `check_format_input_orientation`) test the input for emptiness
+    """pose paths have at least one entry: the two gates through which a position path and an orientation path enter an object
+    (`check_format_input_vector`, whose path format serves position only, and `check_format_input_orientation`) test the input for emptiness
     (`X.size` / `len(X)` / `X.shape[0]` compared with 0 or 1, or used as a truth value) - an empty array has an admissible rank and last
     axis and would be stored as a path of length 0, on which the next field computation fails with an internal error"""
     m = repo.mod(IC)
@@ -1051,7 +1051,7 @@ def nonempty_gates(repo, res, rule):
             if isinstance(x, ast.BoolOp):
                 out += [v for v in x.values if measure(v)]
         return out
-    for gate in ("check_array_shape", "check_format_input_orientation"):
+    for gate in ("check_format_input_vector", "check_format_input_orientation"):
         fn = m.funcs.get(gate)
         res.require(fn is not None, f"anchor vanished: input_checks.{gate}")
         # the test may live in a helper the gate calls (one level)
